@@ -79,11 +79,21 @@ pub fn exec(rec: &Value, st: &mut State) -> Value {
         "tolmap" => {
             let s = scale_of(rec);
             let bps = gvi(rec, "bps");
-            let dom = match DiscreteDomain::try_from(bps.iter().map(|b| *b as f64 * s).collect::<Vec<f64>>()) {
-                Ok(d) => d,
-                Err(_) => return json!({"ok": false, "z": []}),
+            // `pushes`: the table is built incrementally - every value is offered to DiscreteDomain::push in turn and the
+            // accept / reject answers are recorded; otherwise the table is handed to try_from as a whole
+            let mut acc: Vec<bool> = vec![];
+            let dom = if rec.get("pushes").is_some() {
+                let mut d = DiscreteDomain::default();
+                for v in gvi(rec, "pushes") { acc.push(d.push(v as f64 * s).is_ok()); }
+                d
+            } else {
+                match DiscreteDomain::try_from(bps.iter().map(|b| *b as f64 * s).collect::<Vec<f64>>()) {
+                    Ok(d) => d,
+                    Err(_) => return json!({"ok": false, "z": []}),
+                }
             };
-            let zones: Vec<Tolerance> = (1..=bps.len()).map(|k| Tolerance::new_unchecked(-(k as f64), k as f64)).collect();
+            let table: Vec<i64> = dom.values().iter().map(|v| q.q(*v / s, 1.0)).collect();
+            let zones: Vec<Tolerance> = (1..=dom.len()).map(|k| Tolerance::new_unchecked(-(k as f64), k as f64)).collect();
             let map = match DiscreteDomainTolMap::try_new(dom, zones) {
                 Ok(m) => m,
                 Err(_) => return json!({"ok": false, "z": []}),
@@ -99,7 +109,7 @@ pub fn exec(rec: &Value, st: &mut State) -> Value {
                     }
                 })
                 .collect();
-            json!({"ok": true, "z": z})
+            json!({"ok": true, "z": z, "acc": acc, "table": table})
         }
         // ------------------------------------------------------------ directed distance
         "dist" => {
